@@ -169,6 +169,16 @@ def run_history(ctx, init, ops):
                     style.getPropertyPriority(n) != (('important' if eff[4] else '') if eff else ''):
                 ctx.violation('effective', case, 'op %d: getPropertyValue(%r)=%r, reference %r' % (k, n, style.getPropertyValue(n), eff))
                 break
+        # the serialised block says the same as the API (entries, values, priorities, in order)
+        try:
+            again = cssutils.css.CSSStyleDeclaration(cssText=style.cssText)
+            a1 = [(p_.name, p_.value, p_.priority) for p_ in style.getProperties(all=True)]
+            a2 = [(p_.name, p_.value, p_.priority) for p_ in again.getProperties(all=True)]
+        except Exception as e:  # noqa
+            ctx.violation('raises', case, 'op %d: serialise/reparse raised %s: %s' % (k, type(e).__name__, e))
+            return None
+        if a1 != a2:
+            ctx.violation('text-vs-api', case, 'op %d: the block says %r, its cssText %r reads back as %r' % (k, a1, style.cssText, a2))
         want.append(([1, eff_val(ret)] if (code == 2 and ret) else [0, 0]) + encode_obs(items, keys))
     return flat, want, case, len(init)
 
